@@ -303,7 +303,8 @@ class Machine:
         if len(views) > 1:
             raise AnalysisBroken('%s: step %r mode 0x%02x is not determined by the modelled state: %r' % (self.prop, key, mode, sorted(views, key=repr)[:3]))
         (v,) = views
-        kind, retsf, ddepth, csl, cursor, eff = v
+        kind, retsf, ddepth, csl, cursor, eff, cbcalls = v
+        self.last_cbcalls = cbcalls
         lv = list(levels)
         for (lvl, field, val) in eff:
             i = b + lvl
@@ -375,7 +376,8 @@ class Machine:
         cur = o['cursor']
         if cur == 'back' and o['cursor_by'][0] == 'c' and o['cursor_by'][1] == 0:
             cur = 'same'
-        return (o['kind'], o.get('ret') if o['kind'] == 'ret' else o.get('sf'), o['ddepth'], o['cs_level'], cur, tuple(sorted(set(eff))))
+        return (o['kind'], o.get('ret') if o['kind'] == 'ret' else o.get('sf'), o['ddepth'], o['cs_level'], cur, tuple(sorted(set(eff))),
+                tuple(o.get('cbcalls', ())))
 
     def loop(self, doc, st, mode, lookup=False, want=None):
         """a call of the token loop -> ('ok', st', r) | ('err', ...)"""
